@@ -600,6 +600,12 @@ pub enum DnsOp {
     Reverse(u16),
     /// regex over a name prefix class
     Regex(u8),
+    /// `n` further lookups BY NAME of names that are already known (cycling through them from
+    /// position `from`, alternately as `&str` and `String`); lookups of known names are
+    /// promised to change nothing.  `mix` bit 0: every 64th step also looks the address up as
+    /// a literal, bit 1: every 128th step a reverse lookup, bit 2: every 512th step a regex
+    /// lookup over a name family.
+    Repeat { n: u32, from: u16, mix: u8 },
 }
 
 #[derive(Clone, Debug, Serialize, Deserialize)]
@@ -636,6 +642,9 @@ pub fn run_dns(sc: &DnsScenario) -> Outcome {
         IpAddr::V6(v) => v.segments()[0] == 0xfe80 && v.segments()[1] == 0 && v.segments()[2] == 0 && v.segments()[3] == 0,
     };
     let mut regexes = 0u64;
+    let mut repeats = 0u64;
+    let mut new_after_repeats = 0u64;
+    let fam: Vec<regex::Regex> = ["^node-[0-9]+$", "^db", "x$", ".*"].iter().map(|p| regex::Regex::new(p).unwrap()).collect();
     macro_rules! learn {
         ($name:expr, $addr:expr, $how:expr) => {{
             let (name, addr): (String, IpAddr) = ($name, $addr);
@@ -654,6 +663,9 @@ pub fn run_dns(sc: &DnsScenario) -> Outcome {
                 }
                 Some(_) => {}
                 None => {
+                    if repeats > 0 {
+                        new_after_repeats += 1;
+                    }
                     if let Some(other) = by_addr.get(&addr) {
                         out.fail("two-names-share-one-address", format!("{name} and {other} -> {addr}"));
                         return out;
@@ -671,7 +683,20 @@ pub fn run_dns(sc: &DnsScenario) -> Outcome {
                 if registered.contains(&name) {
                     continue; // registering twice is a documented panic
                 }
-                sim.host(name.clone(), || async { std::future::pending::<()>().await; Ok(()) });
+                // registering a name that is not registered yet is never documented to panic
+                // (turmoil refuses a host whose address already belongs to a registered host)
+                let r = catch_unwind(AssertUnwindSafe(|| {
+                    sim.host(name.clone(), || async { std::future::pending::<()>().await; Ok(()) });
+                }));
+                if r.is_err() {
+                    let msg = crate::engine::take_last_panic().unwrap_or_default();
+                    let first_sight = !model.contains_key(&name);
+                    out.fail(
+                        "registering-an-unregistered-host-name-panics",
+                        format!("{name} (first sight of the name: {first_sight}; {} names known, {} registered, {repeats} repeated lookups of known names so far): {msg}", model.len(), registered.len()),
+                    );
+                    return out;
+                }
                 registered.insert(name.clone());
                 let a = sim.lookup(name.clone());
                 learn!(name, a, "after register");
@@ -713,6 +738,47 @@ pub fn run_dns(sc: &DnsScenario) -> Outcome {
                         let r = sim.reverse_lookup(unused);
                         if r.is_some() {
                             out.fail("reverse-lookup-invents-a-name", format!("{unused} -> {r:?}"));
+                            return out;
+                        }
+                    }
+                }
+            }
+            DnsOp::Repeat { n, from, mix } => {
+                if model.is_empty() {
+                    continue;
+                }
+                let known: Vec<(String, IpAddr)> = model.iter().map(|(n, a)| (n.clone(), *a)).collect();
+                for j in 0..*n as usize {
+                    let (name, addr) = &known[(*from as usize + j) % known.len()];
+                    let a = if j % 2 == 0 { sim.lookup(name.as_str()) } else { sim.lookup(name.clone()) };
+                    repeats += 1;
+                    if a != *addr {
+                        out.fail("same-name-resolved-to-different-addresses", format!("{name}: first {addr}, now {a} (repeated lookup #{repeats} of known names)"));
+                        return out;
+                    }
+                    if mix & 1 != 0 && j % 64 == 63 {
+                        let (l1, l2) = (sim.lookup(*addr), sim.lookup(addr.to_string()));
+                        if l1 != *addr || l2 != *addr {
+                            out.fail("literal-address-not-passed-through", format!("{addr} -> {l1} / {l2}"));
+                            return out;
+                        }
+                    }
+                    if mix & 2 != 0 && j % 128 == 127 {
+                        let r = sim.reverse_lookup(*addr);
+                        if r.as_deref() != Some(name.as_str()) {
+                            out.fail("reverse-lookup-does-not-invert", format!("{name} -> {addr} -> {r:?}"));
+                            return out;
+                        }
+                    }
+                    if mix & 4 != 0 && j % 512 == 511 {
+                        regexes += 1;
+                        let re = &fam[(j / 512) % fam.len()];
+                        let mut got: Vec<IpAddr> = sim.lookup_many(re.clone());
+                        got.sort();
+                        let mut want: Vec<IpAddr> = known.iter().filter(|(n, _)| re.is_match(n)).map(|(_, a)| *a).collect();
+                        want.sort();
+                        if got != want {
+                            out.fail("regex-lookup-differs-from-matching-names", format!("/{re}/: got {} addresses, model {} (known names {})", got.len(), want.len(), known.len()));
                             return out;
                         }
                     }
@@ -763,6 +829,16 @@ pub fn run_dns(sc: &DnsScenario) -> Outcome {
         out.label("dns-regex");
     }
     out.count("dns names known", model.len() as u64);
+    out.count("dns repeated by-name lookups of known names", repeats);
+    out.count("dns names first seen after repeated lookups", new_after_repeats);
+    if repeats > 0 && new_after_repeats > 0 {
+        out.label("dns-new-names-after-repeated-lookups");
+    }
+    for t in [1_000u64, 20_000, 65_536] {
+        if repeats >= t && new_after_repeats > 0 {
+            out.label(&format!("dns-repeats>={t}"));
+        }
+    }
     out.nontrivial = model.len() >= 8 && registered.len() >= 2 && registered.len() < model.len();
     out
 }
@@ -798,9 +874,49 @@ fn dns_strategy() -> BoxedStrategy<DnsScenario> {
                 1 => any::<u16>().prop_map(DnsOp::Literal),
                 2 => any::<u16>().prop_map(DnsOp::Reverse),
                 1 => any::<u8>().prop_map(DnsOp::Regex),
+                1 => (0u32..300, any::<u16>(), any::<u8>()).prop_map(|(n, from, mix)| DnsOp::Repeat { n, from, mix }),
             ];
             let len = if names >= 200 { 300..900usize } else { 5..80usize };
             proptest::collection::vec(op, len).prop_map(move |ops| DnsScenario { v6, names, ops })
+        })
+        .boxed()
+}
+
+/// Lookup-heavy histories: a block of names is made known (registered or looked up), then
+/// phases of very many repeated by-name lookups of the known names (tens of thousands, in a
+/// fraction of the cases more than the 65 536 host numbers of the v4 subnet in total) alternate
+/// with runs of newly registered / newly looked-up names separated by short repeat bursts.
+fn dns_heavy_strategy() -> BoxedStrategy<DnsScenario> {
+    (prop_oneof![3 => Just(false), 1 => Just(true)], 40u16..=400)
+        .prop_flat_map(|(v6, block)| {
+            let newn = || prop_oneof![1 => Just(true), 1 => Just(false)];
+            let phase = (
+                prop_oneof![1 => 0u32..2_000, 2 => 2_000u32..20_000, 2 => 20_000u32..70_000],
+                any::<u16>(),
+                any::<u8>(),
+                proptest::collection::vec((0u32..=block as u32, any::<u16>(), newn()), 5..60),
+            );
+            (proptest::collection::vec(newn(), block as usize), proptest::collection::vec(phase, 1..=4)).prop_map(move |(init, phases)| {
+                let mut ops = Vec::new();
+                let mut next = 0u16;
+                let mut fresh = |reg: bool, ops: &mut Vec<DnsOp>| {
+                    ops.push(if reg { DnsOp::Register(next) } else { DnsOp::Lookup(next) });
+                    next += 1;
+                };
+                for reg in init {
+                    fresh(reg, &mut ops);
+                }
+                for (n, from, mix, news) in phases {
+                    ops.push(DnsOp::Repeat { n, from, mix });
+                    for (gap, gfrom, reg) in news {
+                        if gap > 0 {
+                            ops.push(DnsOp::Repeat { n: gap, from: gfrom, mix });
+                        }
+                        fresh(reg, &mut ops);
+                    }
+                }
+                DnsScenario { v6, names: u16::MAX, ops }
+            })
         })
         .boxed()
 }
@@ -822,18 +938,20 @@ fn check(tier: Tier, seed: u64) -> i32 {
     ctx.replay_corpus(&replay);
     ctx.random("ports", tier.pick(12_000, 200_000), &|| port_strategy(), &run_ports);
     ctx.random("dns", tier.pick(3_000, 40_000), &|| dns_strategy(), &run_dns);
+    ctx.random("dns-lookup-heavy", tier.pick(600, 8_000), &|| dns_heavy_strategy(), &run_dns);
     ctx.finish(
-        "ports: random sequences of 4-40 operations (bind UDP / TCP listener on port 0 or a fixed port around the range, outgoing connect, connects that are refused / go nowhere / are cancelled, accept from the peer, drop, crash+bounce) on a host whose ephemeral range has 3-8 ports, checked against a port-set model; non-trivial = the ephemeral cursor wrapped at least once and skipped at least one port in use. dns: random sequences of register / lookup / literal / reverse / regex lookups over up to 600 names in v4 and v6 mode against a name->address map; non-trivial = >= 8 names known, some registered and some only looked up. Distinct by scenario hash.",
+        "ports: random sequences of 4-40 operations (bind UDP / TCP listener on port 0 or a fixed port around the range, outgoing connect, connects that are refused / go nowhere / are cancelled, accept from the peer, drop, crash+bounce) on a host whose ephemeral range has 3-8 ports, checked against a port-set model; non-trivial = the ephemeral cursor wrapped at least once and skipped at least one port in use. dns: random sequences of register / lookup / literal / reverse / regex lookups over up to 600 names in v4 and v6 mode against a name->address map; non-trivial = >= 8 names known, some registered and some only looked up. dns-lookup-heavy: a block of 40-400 names is made known, then 1-4 phases of 0-70 000 repeated by-name lookups of the known names (as &str / String, mixed with literal-address, reverse and regex lookups; every result compared with the map) alternate with runs of 5-60 new names (registered or looked up) separated by short repeat bursts; the total number of by-name lookups exceeds the 65 536 host numbers of the v4 subnet in a fraction of the cases; distinctness is checked at every first sight of a name, stability at every lookup, stability + reverse inversion over all names at the end. Distinct by scenario hash.",
         &[
             "port 0 requests are only issued while the model has a free port in the range (exhaustion is a documented panic)",
             "registering the same name twice is a documented panic and is not generated",
+            "at most a few hundred distinct names per simulation (the property's quantifier), so the subnet itself is never exhausted by names; lookups of known names are not counted against it (they are promised to change nothing)",
         ],
     )
 }
 
 fn replay(sub: &str, v: &Value) -> Result<Outcome, String> {
     match sub {
-        "dns" => replay_as::<DnsScenario>(v, &run_dns),
+        "dns" | "dns-lookup-heavy" => replay_as::<DnsScenario>(v, &run_dns),
         _ => replay_as::<PortScenario>(v, &run_ports),
     }
 }
